@@ -47,6 +47,8 @@ func runC11(c *Ctx) {
 		return
 	}
 
+	ruleCloseMarks(c, p, "C11.close-marks")
+
 	// ---- C11.handle
 	rule := "C11.handle"
 	c.R.Rule(rule, "typestate of the pooled handle: in every method of chpool.Client, a call of puddle Resource.{Release,ReleaseUnused,Destroy,Hijack} on the handle's resource is accompanied on every path to exit by a store of nil to the handle's `res` field (before or after it), and the method starts with a nil guard - so a released handle cannot act on the resource again, whoever holds it now")
